@@ -114,7 +114,10 @@ Definition handle (auth : option authenticator) (p : policy) (raw : option (list
       if ICMP_REFUSED_WHEN_NOT_SET_UP
       then match o with
            | COk => ok_answer true
-           | _ => {| a_status := 502; a_challenge := false; a_warning := 0; a_names_host := false; a_egress := false |}
+           | _ => (* a multiplexer that cannot be made is a connection that cannot be made: the generic code 300
+                     (ICMP_REFUSAL_CARRIES_WARNING; the first repair answered a bare 502) *)
+                  {| a_status := 502; a_challenge := false; a_warning := if ICMP_REFUSAL_CARRIES_WARNING then 300 else 0;
+                     a_names_host := false; a_egress := false |}
            end
       else ok_answer true
     | RRefused => {| a_status := 502; a_challenge := false; a_warning := 0; a_names_host := false; a_egress := false |}
